@@ -254,5 +254,8 @@ def run(ctx):
     vlib.merge_parts(ctx, "cases = controller scripts (spawn waiters with gates inside the Locker's Unlock, Signal/Broadcast, cancel, release, quiesce) run against the real ContextCond; "
                      "each recorded history must be accepted by the LTS model (some schedule produces it and every quiescence point is a model state with nothing enabled); "
                      "distinct = hash of script; non-trivial = >= 1 waiter and >= 1 signal/broadcast/cancel")
-    vlib.handle_broken_proof(ctx)
+    def deep():
+        # only when an obligation (e.g. the source census) no longer checks: patience mode, bigger storms
+        vlib.patience_part(ctx, CondSpec(), exe, proofs_ok, tag="cond", ncases=16, ms=6500)
+    vlib.handle_broken_proof(ctx, deep if ctx.tier == "quick" else None)
     ctx.finish()
